@@ -434,6 +434,19 @@ func NegateDeMorgan(expr ast.Expr, recursive bool) ast.Expr {
 	}
 }
 
+// isAssociative reports whether a op (b op c) can be regrouped as (a op b) op c.
+// This does not hold for operators such as -, /, << or ==.
+//
+// XXX + and * are not associative for floating point operands
+func isAssociative(op token.Token) bool {
+	switch op {
+	case token.LAND, token.LOR, token.ADD, token.MUL, token.AND, token.OR, token.XOR:
+		return true
+	default:
+		return false
+	}
+}
+
 func SimplifyParentheses(node ast.Expr) ast.Expr {
 	var changed bool
 	// XXX accept list of ops to operate on
@@ -445,8 +458,7 @@ func SimplifyParentheses(node ast.Expr) ast.Expr {
 		}
 
 		if binop, ok := out.(*ast.BinaryExpr); ok {
-			if right, ok := binop.Y.(*ast.BinaryExpr); ok && binop.Op == right.Op {
-				// XXX also check that Op is associative
+			if right, ok := binop.Y.(*ast.BinaryExpr); ok && binop.Op == right.Op && isAssociative(binop.Op) {
 
 				root := binop
 				pivot := root.Y.(*ast.BinaryExpr)
